@@ -112,12 +112,25 @@ class ASTRewriter(ast.NodeTransformer):
         self.env = Environment() if env is None else env
         self.ret = None
         self._uniqd = 1
+        self._if_temps = set()
 
     @property
     def uniqd(self):
         """Return an unique identifier as str"""
         self._uniqd += 1
         return f"{self._uniqd:x}"
+
+    def _if_uniqd(self):
+        """Return an unique identifier whose if-temporaries (_iftargN, _iftN_x, _ifeN_x)
+        are not the names of variables of the function"""
+        while True:
+            uid = self.uniqd
+            prefixes = (f"_iftarg{uid}", f"_ift{uid}_", f"_ife{uid}_")
+            known = list(self.env.types) + list(self.env.constants)
+            if not any(
+                n.startswith(prefixes) for n in known if n not in self._if_temps
+            ):
+                return uid
 
     def generic_visit(self, node):
         return super().generic_visit(node)
@@ -222,8 +235,9 @@ class ASTRewriter(ast.NodeTransformer):
         its own copies of the variables it assigns, followed by v = v_t if c else v_e"""
         body = flatten([self.visit(n) for n in node.body])
         orelse = flatten([self.visit(n) for n in node.orelse])
-        uid = self.uniqd
+        uid = self._if_uniqd()
         test_name = "_iftarg" + uid
+        self._if_temps.add(test_name)
 
         if_l = [
             ast.Assign(
@@ -251,6 +265,7 @@ class ASTRewriter(ast.NodeTransformer):
 
                 target = b.targets[0].id
                 l_name = f"_if{tag}{uid}_{target}"
+                self._if_temps.add(l_name)
                 if_l.append(ast.Assign(targets=[ast.Name(id=l_name)], value=value))
                 local[target] = l_name
             return local
@@ -262,7 +277,7 @@ class ASTRewriter(ast.NodeTransformer):
             t for t in else_local.keys() if t not in then_local
         ]:
             # Temporaries of the branches are not visible after the if
-            if target.startswith("__") or target.startswith("_if"):
+            if target.startswith("__") or target in self._if_temps:
                 continue
 
             if_l.append(
